@@ -112,14 +112,15 @@ Qed.
 Section WithG.
   Variable st : style.
   Let fs := st_fs st.
-  Let Gp := G fs (ins_of st).
+  Let Gp := Gpango fs.
   Let firstG := first Gp.
 
-  Lemma first_simple X W l r wd : simple X -> Gp X (Some W) false = (l, r, wd) ->
+  Lemma first_simple X W l r wd : simple X -> G fs true X (Some W) false = (l, r, wd) ->
     firstG {| l_text := X; l_w := Some W; l_wc := false |} = ((Z.of_nat l, wd), option_map Z.of_nat r).
   Proof.
-    intros HX HG. unfold firstG, first. cbn [l_text l_w l_wc]. fold Gp. rewrite HG.
-    destruct (G_shape fs (ins_of st) X W l r wd HX HG) as [(-> & -> & _)|(-> & Hl)].
+    intros HX HG. unfold firstG, first, Gp. cbn [l_text l_w l_wc].
+    change (Gpango fs X (Some W) false) with (G fs true X (Some W) false). rewrite HG.
+    destruct (G_shape fs true X W l r wd HX HG) as [(-> & -> & _)|(-> & Hl)].
     - rewrite firstn_all, (nbytes_simple X HX). reflexivity.
     - cbn [option_map]. rewrite (nbytes_simple _ (simple_firstn l X HX)), firstn_length_le by lia. reflexivity.
   Qed.
@@ -128,7 +129,7 @@ Section WithG.
     firstG {| l_text := p; l_w := None; l_wc := wc |} =
     ((Z.of_nat (length p), (inject_Z (Z.of_nat (length p)) * fs)%Q), None).
   Proof.
-    intros Hp. unfold firstG, first, Gp, G. cbn [l_text l_w l_wc].
+    intros Hp. unfold firstG, first, Gp, Gpango, G. cbn [l_text l_w l_wc].
     rewrite (para_simple p Hp), (has_nl_simple p Hp), (visw_simple p Hp), firstn_all, (nbytes_simple p Hp). reflexivity.
   Qed.
 
@@ -152,10 +153,10 @@ Section WithG.
   Proof. reflexivity. Qed.
 
   (* steps 4-5 do nothing on letters and spaces when the line fits or words may not be broken *)
-  Lemma steps45_plain mw pwm ils mini T flt slt Lay fl ri :
+  Lemma steps45_plain mw pwm ils mini T flt slt oso Lay fl ri :
     simple (flt ++ slt) ->
     Qle_bool (snd fl) mw = true \/ can_break_inside st ils mini = false ->
-    steps45 Gp st mw pwm ils mini T flt slt Lay fl ri =
+    steps45 Gp st mw pwm ils mini T flt slt oso Lay fl ri =
     first_line_metrics Gp fl T Lay ri (space_collapse (st_ws st)) false.
   Proof.
     intros Hs Hg. unfold steps45. rewrite (has_shy_simple _ Hs), andb_false_r. cbn [andb rev].
@@ -378,7 +379,8 @@ Section Core.
   Variable st : style.
   Variables (ws : list text) (mw W : Q) (ils mini : bool) (k : nat).
   Local Notation fs := (st_fs st).
-  Local Notation Gp := (G (st_fs st) (ins_of st)).
+  Local Notation Gp := (Gpango (st_fs st)).
+  Local Notation Gt := (G (st_fs st) true).
   Local Notation collapse := (space_collapse (st_ws st)).
   Local Notation t0 := (join ws).
   Local Notation n := (length ws).
@@ -393,7 +395,7 @@ Section Core.
   Hypothesis Hk : (1 <= k <= n)%nat.
   Hypothesis Hfitk : (2 <= k)%nat -> fits_chars fs W (wlen ws k).
   Hypothesis Hnext : (k < n)%nat -> ~ fits_chars fs W (wlen ws (k + 1)).
-  Hypothesis HGt : Gp t0 (Some W) false =
+  Hypothesis HGt : Gt t0 (Some W) false =
       if (k =? n)%nat then (length t0, None, (inject_Z (Z.of_nat (length t0)) * fs)%Q)
       else (r, Some r, wd).
   Hypothesis Hguard : fits_chars fs mw (wlen ws 1) \/ can_break_inside st ils mini = false.
@@ -439,7 +441,7 @@ Section Core.
   (* a prefix of the text that ends just before a later space does not fit, and the breaker answers the same on it *)
   Lemma G_on_word_prefix m : (k < n)%nat -> (r < m)%nat -> nth_error t0 m = Some Sp ->
     exists k2, (k < k2 < n)%nat /\ m = wlen ws k2 /\ firstn m t0 = join (firstn k2 ws) /\
-    Gp (firstn m t0) (Some W) false = (r, Some r, wd).
+    Gt (firstn m t0) (Some W) false = (r, Some r, wd).
   Proof.
     intros Hkn Hm Hsp. destruct (join_sp_position ws Hw m Hsp) as (k2 & Hk2 & ->).
     assert (Hkk : (k < k2)%nat).
@@ -563,12 +565,12 @@ Section Core.
       assert (Hlook : forall bp, (forall z, bp = Some z -> z < Z.of_nat (mt - r)) -> (bp = None -> mt = length t0) ->
                 match lookahead Gp collapse T' (firstn r T') (skipn r T') bp Lay (Z.of_nat r, wd) (Some (Z.of_nat r)) with
                 | inl o => o
-                | inr (L1, f1, r1) => steps45 Gp st mw pwm ils mini T' (firstn r T') (skipn r T') L1 f1 r1
+                | inr (L1, f1, r1) => steps45 Gp st mw pwm ils mini T' (firstn r T') (skipn r T') false L1 f1 r1
                 end = greedy_out).
       { intros bp F1 F2.
         destruct (lookahead_fit T' Lay mt bp Hkn HT ltac:(lia) eq_refl eq_refl F1 F2) as [E|(L1 & E)]; rewrite E.
         - apply (flm_break T' Lay mt Hkn HT). lia.
-        - rewrite (steps45_plain st mw pwm ils mini T' (firstn r T') (skipn r T') L1);
+        - rewrite (steps45_plain st mw pwm ils mini T' (firstn r T') (skipn r T') false L1);
             [|rewrite firstn_skipn; exact HsT|left; exact Efit].
           apply (flm_break T' L1 mt Hkn HT). lia. }
       destruct (nbp Gattrs Lay (r + 1) mx) as [j| |] eqn:Enbp.
@@ -603,26 +605,23 @@ Section Core.
       { unfold nbp, Lay. cbn [l_text]. rewrite HX, (Hpre mx ltac:(lia)). cbn [app Gattrs skipn].
         rewrite (attrs_first_word l a b _ (mx - 1) 0 Ha Hl Hb); [reflexivity|]. simpl in Hr. lia. }
       rewrite Hnbp.
-      replace (Z.of_nat (length l + 1) - (Z.of_nat 0 + 1)) with (Z.of_nat (length l)) by lia.
+      replace (Z.of_nat (length l + 1) + 1) with (Z.of_nat (length l + 2)) by lia.
       assert (HT' : T' = (a :: l) ++ Sp :: b :: firstn (mt - length (a :: l) - 2) R) by (rewrite HT; apply Hpre; lia).
       unfold lookahead.
-      destruct (rstrip (py_slice_to T' (Some (Z.of_nat (length l))))) as [|x nw'] eqn:Enw.
-      + rewrite (steps45_plain st mw pwm ils mini T' [] T' Lay); [|exact HsT|right; exact Hcb].
+      destruct (rstrip (py_slice_to T' (Some (Z.of_nat (length l + 2))))) as [|x nw'] eqn:Enw.
+      + rewrite (steps45_plain st mw pwm ils mini T' [] T' false Lay); [|exact HsT|right; exact Hcb].
         apply (flm_break T' Lay mt Hkn HT). lia.
-      + assert (Hl0 : (1 <= length l)%nat).
-        { destruct l; [simpl in Enw; discriminate|simpl; lia]. }
-        destruct (Z.of_nat (length l) =? 0) eqn:Ez; [apply Z.eqb_eq in Ez; lia|].
-        unfold py_index. destruct (0 <=? Z.of_nat (length l)) eqn:Ez2; [|apply Z.leb_gt in Ez2; lia].
+      + destruct (Z.of_nat (length l + 2) =? 0) eqn:Ez; [apply Z.eqb_eq in Ez; lia|].
+        unfold py_index. destruct (0 <=? Z.of_nat (length l + 2)) eqn:Ez2; [|apply Z.leb_gt in Ez2; lia].
         rewrite Nat2Z.id.
-        assert (Hc : exists c, nth_error T' (length l) = Some c /\ is_letter c = true).
-        { rewrite HT'. rewrite nth_error_app1 by (simpl; lia).
-          destruct (nth_error (a :: l) (length l)) as [c|] eqn:En; [|apply nth_error_None in En; simpl in En; lia].
-          exists c. split; [reflexivity|]. apply (nth_error_letters (a :: l) (length l) c); [|exact En].
-          cbn [forallb]. rewrite Ha, Hl. reflexivity. }
-        destruct Hc as (c & Hc & Hlc). rewrite Hc.
-        assert (Hns : is_sp c = false) by (destruct c; try discriminate; reflexivity).
+        (* second_line_text[break_point] is the letter that follows the space *)
+        assert (Hc : nth_error T' (length l + 2) = Some b).
+        { rewrite HT'. rewrite nth_error_app2 by (simpl; lia).
+          replace (length l + 2 - length (a :: l))%nat with 1%nat by (simpl; lia). reflexivity. }
+        rewrite Hc.
+        assert (Hns : is_sp b = false) by (destruct b; try discriminate; reflexivity).
         rewrite Hns, andb_false_r.
-        rewrite (steps45_plain st mw pwm ils mini T' [] T' Lay); [|exact HsT|right; exact Hcb].
+        rewrite (steps45_plain st mw pwm ils mini T' [] T' false Lay); [|exact HsT|right; exact Hcb].
         apply (flm_break T' Lay mt Hkn HT). lia.
   Qed.
 
@@ -648,13 +647,13 @@ Section Core.
     pose proof (join_last_letter ws Hw Hne) as Hlast. destruct (join_last_is_letter ws Hw Hne) as (c & Hc & Hns).
     pose proof (Ht0) as Hsimple.
     rewrite Et in Hlast, Hc, Hsimple |- *.
-    cbn [text_eqb].
+    rewrite Hlast. cbn [text_eqb].
     assert (Hnbp : nbp Gattrs {| l_text := a :: l; l_w := Some W; l_wc := false |} (length (@nil ch) + 1) (length (a :: l)) = NotFound).
     { unfold nbp. cbn [l_text Gattrs skipn length Nat.add]. replace (S (length l) - 1)%nat with (length l) by lia.
       apply attrs_letters; assumption. }
     rewrite Hnbp. unfold lookahead. cbn [py_slice_to]. rewrite (rstrip_id _ Hlast).
     rewrite (py_index_last (a :: l)) by discriminate. rewrite Hc, Hns, andb_false_r.
-    rewrite (steps45_plain st mw pwm ils mini (a :: l) [] (a :: l)); [reflexivity|exact Hsimple|right; exact Hcb].
+    rewrite (steps45_plain st mw pwm ils mini (a :: l) [] (a :: l) false); [reflexivity|exact Hsimple|right; exact Hcb].
   Qed.
 
   Definition whole_out : outcome :=
@@ -675,9 +674,9 @@ Section Core.
     assert (Hss : simple short0) by (rewrite Hs0; apply simple_firstn; exact Ht0).
     assert (Hls : length short0 = mx) by (rewrite Hs0; apply firstn_length_le; exact Hmx).
     unfold mk_layout. rewrite (truncate_simple short0 Hss).
-    destruct (Gp short0 (Some W) false) as [[l0 r0] wd0] eqn:EG0.
+    destruct (Gt short0 (Some W) false) as [[l0 r0] wd0] eqn:EG0.
     rewrite (first_simple st short0 W l0 r0 wd0 Hss EG0).
-    destruct (G_shape fs (ins_of st) short0 W l0 r0 wd0 Hss EG0) as [(-> & Hl0 & Hwd0)|(-> & Hl0)].
+    destruct (G_shape fs true short0 W l0 r0 wd0 Hss EG0) as [(-> & Hl0 & Hwd0)|(-> & Hl0)].
     - (* the draft fits on one line *)
       cbn [option_map].
       destruct (Nat.eq_dec mx (length t0)) as [Emx|Emx].
@@ -702,7 +701,7 @@ Section Core.
           pose proof (wlen_mono_le ws (S k) n ltac:(lia)). lia.
     - (* the draft is broken: the same break is found on the whole text *)
       cbn [option_map].
-      pose proof (G_stable fs (ins_of st) t0 mx W l0 l0 wd0 Hfs0 Ht0 Hmx) as Hst. rewrite <- Hs0 in Hst.
+      pose proof (G_stable fs true t0 mx W l0 l0 wd0 Hfs0 Ht0 Hmx) as Hst. rewrite <- Hs0 in Hst.
       specialize (Hst EG0). rewrite HGt in Hst.
       destruct (Nat.eq_dec k n) as [Ekn|Ekn].
       { rewrite (proj2 (Nat.eqb_eq k n) Ekn) in Hst. discriminate. }
@@ -762,9 +761,9 @@ Theorem sfl_words st ws mw ils mini :
           (inject_Z (Z.of_nat (length (line_of collapse ws k))) * fs)%Q.
 Proof.
   intros Hw Hne Hfs Hwrap H21 Hguard fs n collapse.
-  destruct (G_words fs (ins_of st) ws (avail mw) (Qlt_le_weak _ _ Hfs) Hw Hne) as (k & Hk & Hfit & Hnext & HG).
+  destruct (G_words fs true ws (avail mw) (Qlt_le_weak _ _ Hfs) Hw Hne) as (k & Hk & Hfit & Hnext & HG).
   exists k. split; [exact Hk|]. split; [exact Hfit|]. split; [exact Hnext|].
-  assert (HGt : G fs (ins_of st) (join ws) (Some (avail mw)) false =
+  assert (HGt : G fs true (join ws) (Some (avail mw)) false =
                 if (k =? n)%nat then (length (join ws), None, (inject_Z (Z.of_nat (length (join ws))) * fs)%Q)
                 else ((wlen ws k + 1)%nat, Some (wlen ws k + 1)%nat, (inject_Z (Z.of_nat (wlen ws k)) * fs)%Q)) by exact HG.
   rewrite (sfl_words_core st ws mw (avail mw) ils mini k eq_refl Hfs Hw Hne Hk Hfit Hnext HGt Hguard Hwrap H21).
